@@ -112,13 +112,13 @@ theorem c17g_no_overwrite_input_unchanged (files : Files) (h : Heap) (doc : Val)
     | some c =>
       simp only
       obtain ⟨order, s⟩ := deepcopy_spec hd
-      have ⟨cs, hnew⟩ := cellsStable_of_copy s
-      obtain ⟨hs, hext, hfr, _⟩ := fixInPlace_spec files c.heap (Val.ref c.root) cs
+      have hnew := copy_allCells_new s
+      obtain ⟨hs, hext, hfr, _⟩ := fixInPlace_spec files c.heap (Val.ref c.root) (fun i hi => (hnew i hi).2)
       have hlen : h.length ≤ c.heap.length := by rw [s.length]; omega
       have hi2 : i < c.heap.length := Nat.lt_of_lt_of_le hi hlen
-      have hnc : Val.ref i ∉ listItems c.heap (getattrV c.heap (Val.ref c.root) "cells") := by
+      have hnc : Val.ref i ∉ allCells c.heap (Val.ref c.root) := by
         intro hm
-        have := hnew i hm
+        have := (hnew i hm).1
         omega
       rw [hfr.other i (Nat.lt_of_lt_of_le hi2 hext.len) hnc, hext.get hi2, s.frame i hi]
 
@@ -147,15 +147,16 @@ theorem c17g_no_overwrite_returns_new (files : Files) (h : Heap) (doc v : Val)
           · simp at hr
       exact ⟨c.root, hv, (s.values_new s.root).1⟩
 
-/-- **`overwrite=True` assigns to cells of `doc.cells` only, and only the four attributes.**  On a heap without
-    dangling references: an object that is not a member of `doc.cells` is untouched (same object, same content);
+/-- **`overwrite=True` assigns to cells only (members of `doc.cells` or `doc.cell2_ca_poolses`), and only the four
+    attributes.**  On a heap without dangling references: an object that is not such a member is untouched (same
+    object, same content);
     a cell keeps its class and every attribute other than `morphology_attr`, `morphology`,
     `biophysical_properties_attr`, `biophysical_properties`; nothing is deleted. -/
 theorem c17g_overwrite_frame (files : Files) (h : Heap) (hwf : WF h) (d : Nat) (hd : d < h.length) :
-    Frame (listItems h (getattrV h (Val.ref d) "cells")) h (fixExternal files h (Val.ref d) true).heap := by
+    Frame (allCells h (Val.ref d)) h (fixExternal files h (Val.ref d) true).heap := by
   unfold fixExternal
   simp only [↓reduceIte]
-  obtain ⟨hs, hext, hfr, _⟩ := fixInPlace_spec files h (Val.ref d) (cellsStable_of_wf hwf hd)
+  obtain ⟨hs, hext, hfr, _⟩ := fixInPlace_spec files h (Val.ref d) (allCells_range_of_wf hwf hd)
   exact (Frame.of_ext _ hext).trans hfr
 
 /-- the copies made by a call: where they are, that they follow each other, that each is closed -/
@@ -175,7 +176,7 @@ theorem c17g_copies_independent_overwrite (files : Files) (h : Heap) (hwf : WF h
     CopiesIndependent h.length (fixExternal files h (Val.ref d) true).heap (fixExternal files h (Val.ref d) true).copies := by
   unfold fixExternal
   simp only [↓reduceIte]
-  obtain ⟨hs, hext, _, hev⟩ := fixInPlace_spec files h (Val.ref d) (cellsStable_of_wf hwf hd)
+  obtain ⟨hs, hext, _, hev⟩ := fixInPlace_spec files h (Val.ref d) (allCells_range_of_wf hwf hd)
   exact ⟨fun ev he => ⟨Nat.le_trans hext.len (hev.range ev he).1, (hev.range ev he).2⟩, hev.sorted, hev.closed⟩
 
 theorem c17g_copies_independent_no_overwrite (files : Files) (h : Heap) (doc : Val) :
@@ -192,8 +193,8 @@ theorem c17g_copies_independent_no_overwrite (files : Files) (h : Heap) (doc : V
     | some c =>
       simp only
       obtain ⟨order, s⟩ := deepcopy_spec hd
-      have ⟨cs, _⟩ := cellsStable_of_copy s
-      obtain ⟨hs, hext, _, hev⟩ := fixInPlace_spec files c.heap (Val.ref c.root) cs
+      have hnew := copy_allCells_new s
+      obtain ⟨hs, hext, _, hev⟩ := fixInPlace_spec files c.heap (Val.ref c.root) (fun i hi => (hnew i hi).2)
       have hlen : h.length ≤ c.heap.length := by rw [s.length]; omega
       exact ⟨fun ev he => ⟨Nat.le_trans hlen (Nat.le_trans hext.len (hev.range ev he).1), (hev.range ev he).2⟩,
         hev.sorted, hev.closed⟩
@@ -273,6 +274,22 @@ example : (fixExternal noFiles exHeap (.ref 0) false).heap.take 10 = exHeap := b
 /-- a dangling reference: KeyError with the missing key -/
 example : (fixExternal noFiles (exHeap.set 5 ⟨"Cell", [("morphology_attr", .prim "s:nope"), ("morphology", .none)]⟩) (.ref 0) true).ret =
     .error (.keyError (.prim "s:nope")) := by rfl
+/-- a `Cell2CaPools` (kept in `doc.cell2_ca_poolses`) is visited after the cells of `doc.cells` (regression for
+    `C17:cell2capools-not-resolved`): three copies, the third for object 11 -/
+def exHeap2 : Heap :=
+  (exHeap.set 0 ⟨"NeuroMLDocument", [("gds_collector_", .ref 9), ("cells", .ref 1), ("cell2_ca_poolses", .ref 10),
+      ("morphology", .ref 2), ("includes", .ref 3), ("biophysical_properties", .ref 3)]⟩) ++
+  [⟨"list", [("", .ref 11)]⟩,
+   ⟨"Cell2CaPools", [("parent_object_", .ref 0), ("id", .prim "s:cc"), ("morphology_attr", .prim "s:m1"),
+                     ("morphology", .none), ("biophysical_properties_attr", .none), ("biophysical_properties", .none)]⟩]
+
+example : WF exHeap2 := by unfold WF; decide
+example : allCells exHeap2 (.ref 0) = [.ref 4, .ref 5, .ref 4, .ref 11] := by decide
+example : (fixExternal noFiles exHeap2 (.ref 0) true).copies.map (fun e => (e.cell, e.lo, e.hi)) =
+    [(.ref 4, 12, 17), (.ref 5, 17, 22), (.ref 11, 22, 27)] := by decide
+example : getattr (fixExternal noFiles exHeap2 (.ref 0) true).heap 11 "morphology" = .ref 22 ∧
+    getattr (fixExternal noFiles exHeap2 (.ref 0) true).heap 11 "morphology_attr" = .none := by decide
+
 /-- ids are compared with their type: the number 5 is not the text "5" -/
 example : (Val.prim "i:5" ∈ [Val.prim "s:5"]) = False := by simp
 
